@@ -340,10 +340,26 @@ func (p *pool) rules(t *rapid.T) map[string]func(*rapid.T) {
 			if e > model.Max32+1 {
 				e = model.Max32 + 1
 			}
-			switch rapid.IntRange(0, 5).Draw(t, "mop") {
+			switch rapid.IntRange(0, 7).Draw(t, "mop") {
+			case 6:
+				p.log("#%d.CheckedAdd(%d)", x.id, v)
+				if got, want := x.b.CheckedAdd(v), !x.m.Contains(uint64(v)); got != want {
+					fail("#%d.CheckedAdd(%d)=%v, membership changed=%v", x.id, v, got, want)
+				}
+				x.m.Add(uint64(v))
+			case 7:
+				p.log("#%d.CheckedRemove(%d)", x.id, v)
+				if got, want := x.b.CheckedRemove(v), x.m.Contains(uint64(v)); got != want {
+					fail("#%d.CheckedRemove(%d)=%v, membership changed=%v", x.id, v, got, want)
+				}
+				x.m.Remove(uint64(v))
 			case 0:
 				p.log("#%d.Add(%d)", x.id, v)
-				x.b.Add(v)
+				if v <= 0x7FFFFFFF && rapid.Bool().Draw(t, "asInt") {
+					x.b.AddInt(int(v))
+				} else {
+					x.b.Add(v)
+				}
 				x.m.Add(uint64(v))
 			case 1:
 				p.log("#%d.Remove(%d)", x.id, v)
@@ -378,10 +394,17 @@ func (p *pool) rules(t *rapid.T) map[string]func(*rapid.T) {
 			w := x.m.Window(k<<16, k<<16+65535)
 			keep := uint64(rapid.IntRange(1, 2).Draw(t, "keep"))
 			budget := 4000
-			p.log("#%d.trimRuns(key=%d keep=%d via Remove)", x.id, k, keep)
+			checked := rapid.Bool().Draw(t, "checked")
+			p.log("#%d.trimRuns(key=%d keep=%d via Remove, checked=%v)", x.id, k, keep, checked)
 			for _, iv := range w.Intervals() {
 				for v := iv.Hi; v >= iv.Lo+keep && budget > 0; v-- {
-					x.b.Remove(uint32(v))
+					if checked {
+						if !x.b.CheckedRemove(uint32(v)) {
+							fail("#%d.CheckedRemove(%d) of a present value returned false", x.id, v)
+						}
+					} else {
+						x.b.Remove(uint32(v))
+					}
 					x.m.Remove(v)
 					budget--
 				}
@@ -532,6 +555,158 @@ func (p *pool) rules(t *rapid.T) map[string]func(*rapid.T) {
 				x.b.RemoveRange(s, e)
 				x.m.RemoveRange(s, e-1)
 			}
+		},
+		"landOnThreshold": func(t *rapid.T) {
+			// shrink one chunk to exactly 4095 / 4096 / 4097 values (the array/bitmap border) by a drawn route
+			var cand []struct {
+				x *member
+				k uint64
+			}
+			for _, x := range p.ms {
+				for _, c := range x.b.VerifChunks() {
+					if c.Card > 4097 && len(cand) < 32 {
+						cand = append(cand, struct {
+							x *member
+							k uint64
+						}{x, uint64(c.Key)})
+					}
+				}
+			}
+			if len(cand) == 0 {
+				t.Skip("no chunk above the threshold")
+			}
+			c := cand[rapid.IntRange(0, len(cand)-1).Draw(t, "which")]
+			x, k := c.x, c.k
+			w := x.m.Window(k<<16, k<<16+65535)
+			target := uint64(rapid.SampledFrom([]int{4095, 4096, 4097}).Draw(t, "target"))
+			excess := w.Card() - target
+			route := rapid.IntRange(0, 5).Draw(t, "route")
+			if route >= 2 && route <= 4 && excess > 4096 {
+				route = rapid.IntRange(0, 1).Draw(t, "route2")
+			}
+			switch route {
+			case 0: // drop the tail
+				v, _ := w.Select(target)
+				p.log("#%d.RemoveRange(%d,%d) leaving %d values in chunk %d", x.id, v, k<<16+65536, target, k)
+				x.b.RemoveRange(v, k<<16+65536)
+				x.m.RemoveRange(v, k<<16+65535)
+			case 1: // drop the head
+				v, _ := w.Select(excess)
+				p.log("#%d.RemoveRange(%d,%d) leaving %d values in chunk %d", x.id, k<<16, v, target, k)
+				x.b.RemoveRange(k<<16, v)
+				x.m.RemoveRange(k<<16, v-1)
+			default:
+				// the victims: every step-th element, exactly `excess` of them
+				step := w.Card() / excess
+				vals := make([]uint32, 0, excess)
+				for i := uint64(0); i < excess; i++ {
+					v, _ := w.Select(i * step)
+					vals = append(vals, uint32(v))
+				}
+				mask := roaring.BitmapOf(vals...)
+				mm := model.FromValues32(vals)
+				switch route {
+				case 2:
+					checked := rapid.Bool().Draw(t, "checked")
+					p.log("#%d: %d point removals (checked=%v) leaving %d values in chunk %d", x.id, len(vals), checked, target, k)
+					for _, v := range vals {
+						if checked {
+							x.b.CheckedRemove(v)
+						} else {
+							x.b.Remove(v)
+						}
+					}
+					x.m = model.AndNot(x.m, mm)
+				case 3:
+					p.log("#%d.AndNot(%d scattered values) leaving %d values in chunk %d", x.id, len(vals), target, k)
+					x.b.AndNot(mask)
+					x.m = model.AndNot(x.m, mm)
+				case 4:
+					nm := p.add(roaring.AndNot(x.b, mask), model.AndNot(x.m, mm), false, x)
+					p.log("#%d=AndNot(#%d, %d scattered values) leaving %d values in chunk %d", nm.id, x.id, len(vals), target, k)
+				default:
+					p.log("#%d.Xor(%d scattered members) leaving %d values in chunk %d", x.id, len(vals), target, k)
+					x.b.Xor(mask)
+					x.m = model.AndNot(x.m, mm)
+				}
+			}
+		},
+		"orInterleavedSparse": func(t *rapid.T) {
+			// in-place union of a run chunk with a run chunk that repeats its long intervals and carries its
+			// isolated values moved by one: each side is run-efficient, their union need not be
+			x, k, ok := p.pickChunk(t)
+			if !ok {
+				t.Skip("no chunk")
+			}
+			w := x.m.Window(k<<16, k<<16+65535)
+			ym := model.New()
+			d := uint64(rapid.SampledFrom([]int{1, 2}).Draw(t, "d"))
+			for _, iv := range w.Intervals() {
+				if iv.Hi-iv.Lo >= 16 {
+					ym.AddRange(iv.Lo, iv.Hi)
+				} else if iv.Hi+d <= k<<16+65535 {
+					ym.AddRange(iv.Lo+d, iv.Hi+d)
+				}
+			}
+			if ym.IsEmpty() {
+				t.Skip("nothing to build")
+			}
+			y := roaring.New()
+			for _, iv := range ym.Intervals() {
+				y.AddRange(iv.Lo, iv.Hi+1)
+			}
+			y.RunOptimize()
+			if rapid.Bool().Draw(t, "optimizeReceiver") {
+				x.b.RunOptimize()
+			}
+			op := rapid.SampledFrom([]int{1, 1, 2}).Draw(t, "op")
+			p.log("#%d.%s(chunk %d of itself with its short runs moved by %d, run-optimized)", x.id, opNames[op], k, d)
+			nm := modelOp(op, x.m, ym)
+			inplaceOp(op, x.b, y)
+			x.m = nm
+		},
+		"orRunPair": func(t *rapid.T) {
+			// two run chunks on the same key, each the smallest form for its own contents (a run of L values plus
+			// n isolated values, n < L-3), whose union is not (2n isolated values, n > (L-3)/2): in-place Or / Xor
+			var x *member
+			for _, o := range p.ms {
+				if o.m.IsEmpty() {
+					x = o
+				}
+			}
+			if x == nil || rapid.Bool().Draw(t, "anyMember") {
+				x = p.pick(t, "x")
+			}
+			k := uint64(0)
+			if keys := x.m.Keys16(); len(keys) > 0 {
+				if keys[len(keys)-1] == 0xFFFF {
+					t.Skip("no room for another chunk")
+				}
+				k = uint64(keys[len(keys)-1]) + 1
+			}
+			L := uint64(rapid.IntRange(20, 1500).Draw(t, "L"))
+			n := uint64(rapid.IntRange(int(L-3)/2+1, int(L)-4).Draw(t, "n"))
+			base := k << 16
+			y := roaring.New()
+			ym := model.New()
+			x.b.AddRange(base, base+L)
+			x.m.AddRange(base, base+L-1)
+			y.AddRange(base, base+L)
+			ym.AddRange(base, base+L-1)
+			for i := uint64(0); i < n; i++ {
+				v := base + L + 10 + 4*i
+				x.b.Add(uint32(v))
+				x.m.Add(v)
+				y.Add(uint32(v + 2))
+				ym.Add(v + 2)
+			}
+			x.b.RunOptimize()
+			y.RunOptimize()
+			op := rapid.SampledFrom([]int{1, 1, 2}).Draw(t, "op")
+			p.log("#%d: new run chunk %d (run of %d + %d isolated values), then in-place %s with a run chunk holding the same run and the isolated values moved by 2", x.id, k, L, n, opNames[op])
+			nm := modelOp(op, x.m, ym)
+			inplaceOp(op, x.b, y)
+			x.m = nm
 		},
 		"addManyComb": func(t *rapid.T) {
 			// one AddMany call that sprinkles many isolated values over a chunk (the last chunk the call touches)
